@@ -42,7 +42,7 @@ func init() {
 			"the wall clock only moves forward inside a bubble; TLS is not simulated",
 			"the attacker tries MD5/hex/base64 of the counter values within +-64 of identifiers disclosed to it",
 		},
-		RequiredProbes: []string{"c11.allowed", "c11.denied", "c11.after-edit", "c11.held-session-after-edit", "c11.entry.wsp-play.granted", "c11.entry.wsp-play.refused", "c11.entry.ws-flv.granted", "c11.entry.ws-flv.refused", "c11.entry.hls-segment.granted", "c11.entry.rtsp-publish.granted", "c11.entry.rtsp-publish.refused", "c11.wsp-foreign-channel-tried", "c11.user-switched-mid-session", "c11.administrator-demoted", "c11.connection-token-list", "c11.playlist-token-checked"},
+		RequiredProbes: []string{"c11.allowed", "c11.denied", "c11.after-edit", "c11.held-session-after-edit", "c11.entry.wsp-play.granted", "c11.entry.wsp-play.refused", "c11.entry.ws-flv.granted", "c11.entry.ws-flv.refused", "c11.entry.hls-segment.granted", "c11.entry.rtsp-publish.granted", "c11.entry.rtsp-publish.refused", "c11.wsp-foreign-channel-tried", "c11.user-switched-mid-session", "c11.administrator-demoted", "c11.connection-token-list", "c11.playlist-token-checked", "c11.delete-spelled-in-other-case", "c11.wsp-rtsp-url-names-other-stream"},
 	})
 }
 
@@ -143,8 +143,10 @@ func buildC11(tier string) sim.Scenario {
 		}
 		// RTP level: parameter sets and a key frame go into each stream's cache; players get a few live packets on demand
 		rtpSeq := uint16(1)
+		seqPath := map[uint16]string{} // RTP sequence number -> the stream the packet was published on
 		publishRTP := func(path string, n int) {
 			for i := 0; i < n; i++ {
+				seqPath[rtpSeq] = path
 				typ := byte(1)
 				if rtpSeq%5 == 1 {
 					typ = 5
@@ -234,8 +236,13 @@ func buildC11(tier string) sim.Scenario {
 					w.Probe("c11.administrator-demoted")
 				}
 				w.Logf("edit: %s pull=%q push=%q", name, np, npush)
-			case 1: // delete
-				res := sw.httpDo("edit", "DELETE", "/api/v1/users/"+name+"?token="+adminTok, nil, "")
+			case 1: // delete (user names are case-insensitive: the administrator may spell the name as it was typed at creation)
+				spell := name
+				if tp.Bool() {
+					spell = []string{strings.ToUpper(name[:1]) + name[1:], strings.ToUpper(name)}[tp.Choose(2)]
+					w.Probe("c11.delete-spelled-in-other-case")
+				}
+				res := sw.httpDo("edit", "DELETE", "/api/v1/users/"+spell+"?token="+adminTok, nil, "")
 				if res.Status != 200 {
 					w.Fail("C11/admin-refused", "administrator's user delete answered %d", res.Status)
 					return
@@ -368,7 +375,7 @@ func buildC11(tier string) sim.Scenario {
 			user := names[tp.Choose(len(names))]
 			u := users[user]
 			path := paths[tp.Choose(len(paths))]
-			kind := tp.Choose(16)
+			kind := tp.Choose(17)
 			// users whose password or existence changed need a fresh login; the old token keeps naming the user
 			tok := tokens[user][0]
 			switch kind {
@@ -610,6 +617,53 @@ func buildC11(tier string) sim.Scenario {
 					break
 				}
 				verdict(ename, user, "pull", path, got, detail)
+				w.Sleep(time.Second)
+			case 16: // WSP channels opened on a stream the caller may watch; the tunnelled RTSP requests then name another stream
+				own := ""
+				for _, p := range paths {
+					if p != path && allowed(user, "pull", p) {
+						own = p
+						break
+					}
+				}
+				if own == "" || !u.exists {
+					break
+				}
+				w.Probe("c11.wsp-rtsp-url-names-other-stream")
+				cl, err := sw.wspConnect(fmt.Sprintf("wspx%d", q), own+"?token="+tok)
+				if err != nil {
+					break // the caller's own access is judged by case 10
+				}
+				base := "rtsp://10.9.0.1:554" + path
+				got := false
+				detail := ""
+				m, err := cl.do("DESCRIBE", base, nil, "")
+				if err == nil && m.Status == 200 {
+					m, err = cl.do("SETUP", base+"/streamid=0", map[string]string{"Transport": "RTP/AVP/TCP;unicast;interleaved=0-1"}, "")
+					if err == nil && m.Status == 200 {
+						m, err = cl.do("PLAY", base, nil, "")
+						if err == nil && m.Status == 200 {
+							publishRTP(path, 4)
+							w.Sleep(500 * time.Millisecond)
+							// the session may legitimately play the stream its channels were opened on (and get that stream's
+							// cached GOP): only packets published on the stream named in the RTSP URL count
+							cl.fmu.Lock()
+							for _, f := range cl.frames {
+								if len(f.Payload) >= 4 && seqPath[uint16(f.Payload[2])<<8|uint16(f.Payload[3])] == path {
+									got = true
+								}
+							}
+							cl.fmu.Unlock()
+						}
+					}
+				}
+				if m != nil {
+					detail = fmt.Sprintf("channels opened on %s, last status %d", own, m.Status)
+				}
+				cl.close()
+				if got { // the server is free to keep playing the stream of the channel's own path: only a grant is judged
+					verdict("wsp-play(RTSP URL names another stream)", user, "pull", path, got, detail)
+				}
 				w.Sleep(time.Second)
 			case 11: // WSP data channel joined to somebody else's control channel (channel ids are disclosed by INIT and sequential)
 				// victim: somebody who may pull `path`; attacker: `user`, if the rights as last saved do not cover `path` but cover another stream
